@@ -62,4 +62,58 @@ theorem views_agree (w : Wire) (b : ExtBlock) (hext : w.ext = some b) (hw : w.WF
     | legacy p ws =>
       cases k <;> simp only [formMatches] at hk <;> first | exact absurd hk (by decide) | exact absurd rfl hnl
 
+theorem hdrGetsOK_map (ext : Option ExtBlock) (h : Header) (qs : List UInt8)
+    (H : ∀ q v, expectHdrGet ext q = some v → getExtension h q = v) :
+    hdrGetsOK ext qs (qs.map (getExtension h)) = true := by
+  induction qs with
+  | nil => rfl
+  | cons q r ih =>
+    simp only [List.map_cons, hdrGetsOK, Bool.and_eq_true, ih, and_true]
+    cases he : expectHdrGet ext q with
+    | none => rfl
+    | some v => simp [H q v he]
+
+/-- the public accessors on the header decoded from a description -/
+theorem accessors_hdrOf (w : Wire) (r : Header) (qs : List UInt8) (hr : w.reserved = false) :
+    getExtensionIDs (hdrOf r w) = (match w.ext with | some b => b.ids | none => []) ∧
+    hdrGetsOK w.ext qs (qs.map (getExtension (hdrOf r w))) = true := by
+  cases hx : w.ext with
+  | none =>
+    refine ⟨by simp [getExtensionIDs, hdrOf, Wire.toPacket, hx], ?_⟩
+    apply hdrGetsOK_map
+    intro q v he
+    simp only [expectHdrGet] at he
+    cases he
+    simp [getExtension, hdrOf, Wire.toPacket, hx]
+  | some b =>
+    have hxx : (hdrOf r w).extension = true := by simp [hdrOf, Wire.toPacket, hx]
+    have he : (hdrOf r w).exts = b.elements := by simp [hdrOf, Wire.toPacket, hx]
+    refine ⟨by simp [getExtensionIDs, hxx, he, ExtBlock.ids], ?_⟩
+    apply hdrGetsOK_map
+    intro q v hq
+    simp only [expectHdrGet] at hq
+    simp only [getExtension, hxx, he, Bool.not_true, Bool.false_eq_true, ↓reduceIte]
+    split at hq
+    · cases hq; rfl
+    · split at hq
+      · rename_i hm
+        cases hq
+        have hnone : (b.elements.find? (·.id == q)) = none := by
+          rw [List.find?_eq_none]
+          intro x hx'
+          simp only [Bool.not_eq_true'] at hm
+          have hsub : (b.elements.any (·.id == q)) = false := by
+            cases b with
+            | oneByte items =>
+              have hnr : items.any Item.isReserved = false := by simpa [Wire.reserved, hx, ExtBlock.reserved] using hr
+              simpa [ExtBlock.mentions, ExtBlock.elements, elems1_noReserved _ hnr] using hm
+            | twoByte items => simpa [ExtBlock.mentions, ExtBlock.elements] using hm
+            | legacy p ws =>
+              have : q ≠ 0 := by simpa [ExtBlock.mentions] using hm
+              simp [ExtBlock.elements, Ne.symm this]
+          have := List.any_eq_false.mp hsub x hx'
+          simpa using this
+        simp [hnone]
+      · cases hq
+
 end Rtp.Proofs.Wire
